@@ -243,6 +243,10 @@ class FortranCTransformation(Transformation):
         #  dependency graph of the Scheduler through the rename
         kernel = routine.clone()
         kernel.name = f'{kernel.name.lower()}_c'
+        if kernel.body is None:
+            # A routine without executable statements: give it an (empty) body,
+            # statements (e.g., getter calls) are prepended to it below
+            kernel.body = ir.Section(body=())
 
         # Clean up Fortran vector notation
         resolve_vector_notation(kernel)
